@@ -848,16 +848,176 @@ Proof.
     + destruct (I u Dn _ _ G) as (K1 & e & Le & Ee). eapply served_ok; eauto. eapply quiet_qrimid_hole; eauto.
 Qed.
 
+(* ------------------------------------------------------------------ clause (D): fail fast *)
+Lemma ff_ok c r s o ob :
+  deq (dump s) (r_prev r) -> sagree c s o ob -> step c s o = (s, mkObs RCErr 0 0) ->
+  is_cerr (o_ret ob) && no_query ob && untouched r ob = true.
+Proof.
+  intros D SA E. pose proof SA as (A1 & _). apply ret_eqb_eq in A1. rewrite E in A1. cbn in A1. rewrite <- A1.
+  cbn [is_cerr andb]. eapply served_ok; eauto. eapply quiet_of_eq; eauto.
+Qed.
+
+Lemma nocerr_ok c s o ob :
+  sagree c s o ob -> is_cerr (oret (snd (step c s o))) = false -> negb (is_cerr (o_ret ob)) = true.
+Proof. intros (A1 & _) H. apply ret_eqb_eq in A1. rewrite <- A1, H. reflexivity. Qed.
+
+Lemma take_nocerr c s p t : key_down c s (KP p) = false -> is_cerr (oret (snd (step c s (OTake p t)))) = false.
+Proof. intro K. cbn [step]. unf. rewrite K. split_step; reflexivity. Qed.
+
+Lemma takemid_nocerr c s p t n : key_down c s (KP p) = false -> is_cerr (oret (snd (step c s (OTakeMid p t n)))) = false.
+Proof. intro K. cbn [step]. unf. rewrite K. split_step; reflexivity. Qed.
+
+Lemma get_nocerr c s p : key_down c s (KP p) = false -> is_cerr (oret (snd (step c s (OGet p)))) = false.
+Proof. intro K. cbn [step]. unf. rewrite K. split_step; reflexivity. Qed.
+
+Lemma set_nocerr c s p u v t : key_down c s (KP p) = false -> is_cerr (oret (snd (step c s (OSet p u v t)))) = false.
+Proof. intro K. cbn [step]. unf. rewrite K. split_step; reflexivity. Qed.
+
+Lemma setex_nocerr c s p u v d : key_down c s (KP p) = false -> is_cerr (oret (snd (step c s (OSetEx p u v d)))) = false.
+Proof. intro K. cbn [step]. unf. rewrite K. reflexivity. Qed.
+
+Lemma takemid_down c s p t n : key_down c s (KP p) = true -> step c s (OTakeMid p t n) = (s, mkObs RCErr 0 0).
+Proof. intro K. cbn [step]. unfold take_mid. rewrite K. reflexivity. Qed.
+
+Lemma qrimid_down c s u t n : key_down c s (KU u) = true -> step c s (OQriMid u t n) = (s, mkObs RCErr 0 0).
+Proof. intro K. cbn [step]. unfold query_index_mid. rewrite K. reflexivity. Qed.
+
+(* QueryRowIndex on a reachable index key whose entry names a primary key *)
+Lemma qri_via c s u t e p :
+  key_down c s (KU u) = false -> lookup (clock s) (cache s) (KU u) = Some e -> eval e = CPk p ->
+  step c s (OQri u t) = step c s (OTake p t).
+Proof.
+  intros K L E. cbn [step]. unfold query_index. rewrite K, L.
+  destruct e as [[a b|q|] x]; cbn in E; try discriminate. inversion E. reflexivity.
+Qed.
+
+Lemma qrimid_via c s u t n e p :
+  key_down c s (KU u) = false -> lookup (clock s) (cache s) (KU u) = Some e -> eval e = CPk p ->
+  step c s (OQriMid u t n) = step c s (OTakeMid p t n).
+Proof.
+  intros K L E. cbn [step]. unfold query_index_mid. rewrite K, L.
+  destruct e as [[a b|q|] x]; cbn in E; try discriminate. inversion E. reflexivity.
+Qed.
+
+Lemma qri_other_nocerr c s u t e o :
+  o = OQri u t \/ (exists n, o = OQriMid u t n) ->
+  key_down c s (KU u) = false -> lookup (clock s) (cache s) (KU u) = Some e -> (forall p, eval e <> CPk p) ->
+  is_cerr (oret (snd (step c s o))) = false.
+Proof.
+  intros [->|[n ->]] K L E; cbn [step]; unfold query_index, query_index_mid; rewrite K, L;
+    destruct e as [[a b|q|] x]; cbn in *; try reflexivity; exfalso; eapply E; reflexivity.
+Qed.
+
+(* an index miss that reports the store's error: the primary's node is down (plain) / went down
+   inside the index query (mid); the store is as before *)
+Lemma qri_miss_cerr c s u t :
+  key_down c s (KU u) = false -> lookup (clock s) (cache s) (KU u) = None ->
+  oret (snd (step c s (OQri u t))) = RCErr ->
+  fst (step c s (OQri u t)) = s /\ cfault s <> [].
+Proof.
+  intros K L. cbn [step]. unfold query_index, load_index. rewrite K, L.
+  destruct (dbFault s); [cbn; discriminate|].
+  destruct (db_by_u u (db s)) as [[p [u' v]]|]; [|destruct (ttl_ok (nf_of c) t); cbn; discriminate].
+  destruct (key_down c s (KP p)) eqn:K'; [|destruct (ttl_ok (expiry_of c) t); cbn; discriminate].
+  intros _. split; [reflexivity|]. unfold key_down, node_down in K'. destruct (cfault s); [discriminate|discriminate].
+Qed.
+
+Lemma qrimid_miss_cerr c s u t n :
+  key_down c s (KU u) = false -> lookup (clock s) (cache s) (KU u) = None ->
+  oret (snd (step c s (OQriMid u t n))) = RCErr ->
+  dump (fst (step c s (OQriMid u t n))) = dump s /\ oqi (snd (step c s (OQriMid u t n))) = 1.
+Proof.
+  intros K L. cbn [step]. unfold query_index_mid, load_index. rewrite K, L.
+  destruct (dbFault (fail_node s n)); [cbn; discriminate|].
+  destruct (db_by_u u (db (fail_node s n))) as [[p [u' v]]|].
+  - destruct (key_down c (fail_node s n) (KP p)); [cbn; auto|].
+    destruct (ttl_ok (expiry_of c) t); [|cbn; discriminate].
+    destruct (key_down c (fail_node s n) (KU u)); cbn; discriminate.
+  - destruct (key_down c (fail_node s n) (KU u)); [cbn; discriminate|].
+    destruct (ttl_ok (nf_of c) t); cbn; discriminate.
+Qed.
+
+Lemma clauseD_sound c r s o ob :
+  linked3 r s -> NoDup (map dkey (o_dump ob)) -> sagree c s o ob -> fail_fast_mid c r o ob = true.
+Proof.
+  intros (L & F & C & K & U & D) _ SA.
+  assert (DK : forall k, down c r k = key_down c s k) by (intro k; apply down_key_down; exact C).
+  (* the part shared by OQri and OQriMid: index key reachable, entry present *)
+  assert (Q : forall u t o' v t0,
+            o' = OQri u t \/ (exists n, o' = OQriMid u t n) -> sagree c s o' ob ->
+            key_down c s (KU u) = false -> dget (r_prev r) (KU u) = Some (v, t0) ->
+            match v with
+            | CPk p => if down c r (KP p) then is_cerr (o_ret ob) && no_query ob && untouched r ob
+                       else negb (is_cerr (o_ret ob))
+            | _ => negb (is_cerr (o_ret ob))
+            end = true).
+  { intros u t o' v t0 Ho SA' K1 G. destruct (dget_lookup s _ _ _ _ D K G) as (e & Le & Ee).
+    destruct v as [a b|p|].
+    - eapply nocerr_ok; eauto. eapply qri_other_nocerr; eauto. intros p. rewrite Ee. discriminate.
+    - rewrite DK. destruct (key_down c s (KP p)) eqn:K2.
+      + destruct Ho as [->|[n ->]].
+        * eapply ff_ok; eauto. rewrite (qri_via c s u t e p K1 Le Ee). apply cerr_take. exact K2.
+        * eapply ff_ok; eauto. rewrite (qrimid_via c s u t n e p K1 Le Ee). apply takemid_down. exact K2.
+      + eapply nocerr_ok; eauto. destruct Ho as [->|[n ->]].
+        * rewrite (qri_via c s u t e p K1 Le Ee). apply take_nocerr. exact K2.
+        * rewrite (qrimid_via c s u t n e p K1 Le Ee). apply takemid_nocerr. exact K2.
+    - eapply nocerr_ok; eauto. eapply qri_other_nocerr; eauto. intros p. rewrite Ee. discriminate. }
+  assert (N : forall k, dget (r_prev r) k = None -> lookup (clock s) (cache s) k = None).
+  { intros k G. destruct (lookup (clock s) (cache s) k) eqn:Lk; [|reflexivity].
+    exfalso. eapply lookup_dget; eauto. }
+  pose proof SA as (A1 & A2 & A3 & A4). apply ret_eqb_eq in A1.
+  destruct o; cbn [fail_fast_mid norm fail_fast]; try reflexivity.
+  - rewrite DK. destruct (key_down c s (KP p)) eqn:K1.
+    + eapply ff_ok; eauto. apply cerr_take. exact K1.
+    + eapply nocerr_ok; eauto. apply take_nocerr. exact K1.
+  - rewrite DK. destruct (key_down c s (KU u)) eqn:K1.
+    + eapply ff_ok; eauto. apply cerr_qri. exact K1.
+    + destruct (dget (r_prev r) (KU u)) as [[v t0]|] eqn:G.
+      * specialize (Q u t (OQri u t) v t0 (or_introl eq_refl) SA K1 G). destruct v; exact Q.
+      * destruct (is_cerr (o_ret ob)) eqn:E; [|reflexivity].
+        assert (R : oret (snd (step c s (OQri u t))) = RCErr).
+        { rewrite A1. destruct (o_ret ob); cbn in E; try discriminate; reflexivity. }
+        destruct (qri_miss_cerr c s u t K1 (N _ G) R) as [S1 S2]. apply andb_true_iff. split.
+        -- rewrite C. destruct (cfault s); [contradiction|reflexivity].
+        -- apply (untouched_intro r s (fst (step c s (OQri u t))) ob D); [rewrite S1; reflexivity | exact A4].
+  - rewrite DK. destruct (key_down c s (KP p)) eqn:K1.
+    + eapply ff_ok; eauto. apply cerr_get. exact K1.
+    + eapply nocerr_ok; eauto. apply get_nocerr. exact K1.
+  - rewrite DK. destruct (key_down c s (KP p)) eqn:K1.
+    + assert (E := cerr_set c s p u v t K1). rewrite E in A1, A4. cbn in A1. rewrite <- A1. cbn [is_cerr andb].
+      apply (untouched_intro r s s ob D); [reflexivity | exact A4].
+    + eapply nocerr_ok; eauto. apply set_nocerr. exact K1.
+  - rewrite DK. destruct (key_down c s (KP p)) eqn:K1.
+    + assert (E := cerr_setex c s p u v d K1). rewrite E in A1, A4. cbn in A1. rewrite <- A1. cbn [is_cerr andb].
+      apply (untouched_intro r s s ob D); [reflexivity | exact A4].
+    + eapply nocerr_ok; eauto. apply setex_nocerr. exact K1.
+  - rewrite DK. destruct (key_down c s (KP p)) eqn:K1.
+    + eapply ff_ok; eauto. apply takemid_down. exact K1.
+    + eapply nocerr_ok; eauto. apply takemid_nocerr. exact K1.
+  - rewrite DK. destruct (key_down c s (KU u)) eqn:K1.
+    + rewrite ?DK, ?K1. eapply ff_ok; eauto. apply qrimid_down. exact K1.
+    + destruct (dget (r_prev r) (KU u)) as [[v t0]|] eqn:G.
+      * rewrite ?DK, ?K1, ?G.
+        specialize (Q u t (OQriMid u t n) v t0 (or_intror (ex_intro _ n eq_refl)) SA K1 G). destruct v; exact Q.
+      * destruct (is_cerr (o_ret ob)) eqn:E; [|reflexivity].
+        assert (R : oret (snd (step c s (OQriMid u t n))) = RCErr).
+        { rewrite A1. destruct (o_ret ob); cbn in E; try discriminate; reflexivity. }
+        destruct (qrimid_miss_cerr c s u t n K1 (N _ G) R) as [S1 S2]. apply andb_true_iff. split.
+        -- apply (untouched_intro r s (fst (step c s (OQriMid u t n))) ob D); [exact S1 | exact A4].
+        -- rewrite <- A2, S2. reflexivity.
+Qed.
+
 (* ------------------------------------------------------------------ summary *)
 (* the clauses of [Check.check_op] that are tied to the model: (A) coherence with F7's exemption,
-   (B) served from the cache, (C) database errors / one query, (F) invalidation *)
+   (B) served from the cache, (C) database errors / one query, (D) fail fast, (F) invalidation *)
 Definition covered_op (c : config) (r : rstate) (o : op) (ob : opobs) : bool :=
-  coherent true r (norm o) ob && served c r (norm o) ob && db_errors r (norm o) ob && invalidated c r o ob.
+  coherent true r (norm o) ob && served c r (norm o) ob && db_errors r (norm o) ob
+  && fail_fast_mid c r o ob && invalidated c r o ob.
 
-(* ... and they are four of the eight conjuncts of the judgement of one operation *)
+(* ... and they are five of the eight conjuncts of the judgement of one operation *)
 Lemma check_op_decomposes c f11 r o ob :
   check_op c true f11 r o ob
-  = covered_op c r o ob && (fail_fast_mid c r o ob && ttls c f11 r o ob && kept r o ob && retried c r o ob).
+  = covered_op c r o ob && (ttls c f11 r o ob && kept r o ob && retried c r o ob).
 Proof.
   unfold check_op, covered_op.
   destruct (coherent true r (norm o) ob), (served c r (norm o) ob), (db_errors r (norm o) ob),
@@ -878,7 +1038,7 @@ Lemma covered_sound c r s o ob :
 Proof.
   intros L U A. unfold covered_op.
   rewrite (clauseA_sound c r s o ob L U A), (clauseB_sound c r s o ob L U A),
-    (clauseC_sound c r s o ob L U A), (clauseF_sound c r s o ob L U A). reflexivity.
+    (clauseC_sound c r s o ob L U A), (clauseD_sound c r s o ob L U A), (clauseF_sound c r s o ob L U A). reflexivity.
 Qed.
 
 Section PerClause.
@@ -908,6 +1068,10 @@ Lemma agreed_history_satisfies_clause_C :
   holds_from (fun c r o ob => db_errors r (norm o) ob) (c_cfg w) (c_cfg2 w) (c_inst w) r0 (c_ops w) (c_obs w) = true.
 Proof. apply agreed_history_satisfies. exact clauseC_sound. Qed.
 
+Lemma agreed_history_satisfies_clause_D :
+  holds_from (fun c r o ob => fail_fast_mid c r o ob) (c_cfg w) (c_cfg2 w) (c_inst w) r0 (c_ops w) (c_obs w) = true.
+Proof. apply agreed_history_satisfies. exact clauseD_sound. Qed.
+
 Lemma agreed_history_satisfies_clause_F :
   holds_from (fun c r o ob => invalidated c r o ob) (c_cfg w) (c_cfg2 w) (c_inst w) r0 (c_ops w) (c_obs w) = true.
 Proof. apply agreed_history_satisfies. exact clauseF_sound. Qed.
@@ -916,3 +1080,9 @@ Lemma agrees_implies_covered :
   holds_from covered_op (c_cfg w) (c_cfg2 w) (c_inst w) r0 (c_ops w) (c_obs w) = true.
 Proof. apply agreed_history_satisfies. exact covered_sound. Qed.
 End PerClause.
+
+(* the judgement Q of one operation, at every operation of the observed history w *)
+Definition judged_from (Q : config -> rstate -> op -> opobs -> bool) (w : wcase) : bool :=
+  holds_from Q (c_cfg w) (c_cfg2 w) (c_inst w)
+             (mkR (c_rows w) false [] [] true [] (init (c_rows w))) (c_ops w) (c_obs w).
+
